@@ -649,6 +649,32 @@ def run_application(ctx, A, context, R, where):
               "app %d), raising=%r" % (sig, apps, app, raising), **where)
         check(A.mc.get_context_arguments() == before,
               "context-not-restored", "after application block", **where)
+    # ONE application-context object kept by the caller and used for several
+    # blocks, one after the other (the second one left by an exception)
+    kept = A.mc.application(app)
+    for rep in range(3):
+        mark = len(A.net.log)
+        before = A.mc.get_context_arguments()
+        try:
+            with kept:
+                inside = A.mc.get_context_arguments()
+                A.mc.send_signal("pause")
+                if rep == 1:
+                    raise KeyError("boom")
+        except KeyError:
+            pass
+        ctx.hit("application_object_reused")
+        ds = dests(sent(A, mark))
+        sig = [(d[2][1] >> 16) & 0xff for d in ds if d[1] == M.CMD["signal"]]
+        apps = [d[2][1] & 0xff for d in ds if d[1] == M.CMD["signal"]]
+        check(inside.get("app_id") == app and sig == [6, 2] and
+              apps == [app, app], "stop-signal-on-exit",
+              "block %d of a re-used application context: inside %r, signals "
+              "sent %r for apps %r (expected pause then stop for app %d)" %
+              (rep + 1, inside, sig, apps, app), **where)
+        check(A.mc.get_context_arguments() == before,
+              "context-not-restored", "after a re-used application block",
+              **where)
     ctx.mark_nontrivial()
 
 
